@@ -37,6 +37,7 @@ ASSUMPTIONS = {
     "A-SHAPE": "the membership of a batch of N aggregated sets evaluated at the (1, r) array of sample points is an (N, r) array whose row i belongs to set i (the shape behaviour of Activated/Aggregated.membership is the subject of C02)",
     "A-FMT": "number formatting/parsing as uninterpreted functions: to_float(Op.str(x)) == rnd(x) with |rnd(x) - x| <= 10**-decimals / 2, rnd idempotent, Op.str(rnd(x)) == Op.str(x), NaN and +-inf survive, values with at most one decimal are representable at every decimals setting (1..9); int(str(i)) == i",
     "A-REFLECT": "inspect.signature(Class.__init__) reports the parameters and defaults written in the source; vars(obj) is the map of the instance fields assigned by the constructors; eval of a printed constructor call binds positional arguments in order and keywords by name; float(repr(x)) == x (CPython)",
+    "A-BCAST": "NumPy broadcasting of shapes is associative, commutative and idempotent, so the shape of an aggregation fold over any number of activated terms is the broadcast of the kinds (scalar / batch) that occur - the shape cases are analysed for up to two terms",
     "A-POW": "floating-point pow(values, 1.0/n) returns the true n-th root up to a relative error of 2**-50 (IEEE pow is accurate to < 1 ulp); int() truncates, round() returns a nearest integer; decided for n = 1..4 input variables (the property's domain) and 1 <= values <= 1e9",
     "A-HEAPQ": "heapq.heappush/heappop implement a min-priority queue on tuples",
     "A-PY": "attribute lookup follows the MRO read from the source; no monkey-patching/metaclasses/__getattr__ on verified classes",
@@ -252,7 +253,7 @@ class Run:
                 if o.meta.get("replay"):
                     status, rec = s.replay(o)
                     if status == "reproduced":
-                        match = [f for f in kf_open if f.get("obligation") == o.name]
+                        match = [f for f in kf_open if s._names(f, o.name)]
                         if not (match and s._finding_applies(match[0], o, status, rec)):
                             violations.append((o, status, rec))
                             continue
@@ -260,7 +261,7 @@ class Run:
                 continue
             # refuted
             status, rec = s.replay(o)
-            match = [f for f in kf_open if f.get("obligation") == o.name]
+            match = [f for f in kf_open if s._names(f, o.name)]
             if match and s._finding_applies(match[0], o, status, rec):
                 kf_hit.append((o, match[0]))
                 continue
@@ -279,8 +280,12 @@ class Run:
         code = 0
         for f, rec in s.kf_bounded:
             kf_hit.append((None, f))
+        printed = set()
         for o, f in kf_hit:
-            print(f"KNOWN-FINDING: property={s.pid} {f['what']}  [obligation {f['obligation']}]")
+            if f["id"] in printed:
+                continue
+            printed.add(f["id"])
+            print(f"KNOWN-FINDING: property={s.pid} {f['what']}  [obligation {f.get('obligation') or f.get('obligation_pattern')}]")
         for o, status, rec in violations:
             path = s._write_replay(o, status, rec)
             tail = "" if status == "reproduced" else " no-failing-input-found"
@@ -301,6 +306,12 @@ class Run:
               f"{len(kf_hit)} known finding(s), tier={s.tier}, {time.time() - s.t0:.1f}s")
         return code
 
+    @staticmethod
+    def _names(f, name):
+        """a finding names one obligation exactly, or the obligations of one recorded failing region by an fnmatch pattern"""
+        import fnmatch
+        return f.get("obligation") == name or (f.get("obligation_pattern") and fnmatch.fnmatchcase(name, f["obligation_pattern"]))
+
     def _witness_matches(s, f, rec):
         w = f.get("match")
         if not w:
@@ -312,11 +323,14 @@ class Run:
         # the stored witness must still fail natively (otherwise the finding is stale and suppresses nothing)
         w = f.get("witness")
         if w:
-            try:
-                res = s.native(w["module"], w["func"], [w.get("kwargs", {})])
-                if not (res and res[0].get("failed")):
-                    return False
-            except Exception:
+            cache = s.__dict__.setdefault("_witness_cache", {})
+            if f["id"] not in cache:
+                try:
+                    res = s.native(w["module"], w["func"], [w.get("kwargs", {})])
+                    cache[f["id"]] = bool(res and res[0].get("failed"))
+                except Exception:
+                    cache[f["id"]] = False
+            if not cache[f["id"]]:
                 return False
         # and everything outside the recorded failing region must be proved (residual obligation)
         r = f.get("residual_prefix")
